@@ -377,7 +377,54 @@ def leaf_stage(tier, rep):
     rep.cov["block_starts_validated"] = len(lines)
 
 
+def html_record(docs):
+    from markdown_it import MarkdownIt
+
+    if len(_LT) < 2:
+        _LT.append(MarkdownIt("commonmark"))
+        _LT.append(MarkdownIt("commonmark"))
+    md = _LT[1]
+    calls = []
+    for lines, para in docs:
+        toks = md.parse("\n".join(lines) + "\n")      # every listed line is a line of the document
+        t = toks[0] if toks else None
+        calls.append([[C.cps(x) for x in lines], t.type if t else "blank", t.map[1] if t is not None and t.map else 0, para])
+    return {"calls": calls}
+
+
+def html_stage(tier, rep):
+    """HtmlBlocks.tla: start conditions 1-7, end conditions and paragraph interruption vs the real block machine."""
+    import itertools
+
+    shapes = gen.alphabet("HtmlLines")
+    hdr = {"names1": [C.cps(x) for x in gen.alphabet("HtmlNames1")], "names6": [C.cps(x) for x in gen.alphabet("HtmlNames6")]}
+    starts = [x for x in shapes if x.lstrip(" \t").startswith("<")]
+    docs = [([a], 0) for a in shapes if a.strip(" \t")]
+    docs += [([a, b], 0) for a in starts for b in shapes]
+    docs += [([a, b, c], 0) for a in starts for b in shapes for c in shapes if tier != "quick" or (len(a) + len(b) * 3 + len(c)) % 3 == 0]
+    docs += [(["text", b], 1) for b in shapes] + [(["text", b, c], 1) for b in shapes for c in shapes]
+    # every block-level name and kind-1 name, in three spellings
+    for n in gen.alphabet("HtmlNames6") + gen.alphabet("HtmlNames1"):
+        for form in ("<%s>", "</%s>", "<%s", "<%s x", "<%sq>", "<%s/>"):
+            line = form % (n.upper() if len(n) % 2 else n)
+            docs.append(([line, "t", "", "u"], 0))
+            docs.append((["text", line], 1))
+    jobs = [docs[i:i + 400] for i in range(0, len(docs), 400)]
+    traces = C.pmap(html_record, jobs, chunk=4)
+    verdicts, st = C.validate_traces("HtmlBlocks", traces, shard=40, heap="4g", header=hdr)
+    rep.tlc_stats("HtmlBlocks", st, len(traces))
+    for job, t, (v, pos) in zip(jobs, traces, verdicts):
+        if v.startswith("harness:"):
+            raise C.MachineryError(f"HtmlBlocks rejected the harness documents: {v} {job[pos - 2]}")
+        if v != "ok":
+            c = t["calls"][pos - 2]
+            rep.violation(f"{v}:{json.dumps(job[pos - 2][0])}:got={c[1]},{c[2]}", {"engine": "trace", "module": "HtmlBlocks", "clause": v,
+                                                                                 "observed": c[1:], "input": {"html_docs": [list(job[pos - 2])]}})
+    rep.cov["html_block_documents_validated"] = len(docs)
+
+
 def run(tier, rep):
+    html_stage(tier, rep)
     leaf_stage(tier, rep)
     flanking_stage(tier, rep)
     linetable_stage(tier, rep)
@@ -420,6 +467,12 @@ def run(tier, rep):
 
 def replay(case, rep):
     i = case["input"]
+    if "html_docs" in i:
+        hdr = {"names1": [C.cps(x) for x in gen.alphabet("HtmlNames1")], "names6": [C.cps(x) for x in gen.alphabet("HtmlNames6")]}
+        v, _ = C.validate_traces("HtmlBlocks", [html_record([(d[0], d[1]) for d in i["html_docs"]])], header=hdr)
+        if v[0][0] != "ok":
+            rep.violation(case.get("key", "replay"), case)
+        return
     if "leaf_lines" in i:
         v, _ = C.validate_traces("LeafBlocks", [leaf_record(i["leaf_lines"])])
         if v[0][0] != "ok":
@@ -478,5 +531,12 @@ def selftest():
     fl["calls"][1][4] = 0
     v5, _ = C.validate_traces("FlankingTrace", [fl])
     assert v5[0][0] == "can_open", v5
-    print("selftest SYSTEM ok:", v[0], v2[0], v3[0], v4[0], v5[0])
+    hdr = {"names1": [C.cps(x) for x in gen.alphabet("HtmlNames1")], "names6": [C.cps(x) for x in gen.alphabet("HtmlNames6")]}
+    hb = html_record([(["<div>", "t", "", "u"], 0), (["text", "<x>"], 1)])
+    v6, _ = C.validate_traces("HtmlBlocks", [hb], header=hdr)
+    assert v6[0][0] == "ok", v6
+    hb["calls"][0][2] = 3
+    v6, _ = C.validate_traces("HtmlBlocks", [hb], header=hdr)
+    assert v6[0][0] == "html_block_extent", v6
+    print("selftest SYSTEM ok:", v[0], v2[0], v3[0], v4[0], v5[0], v6[0])
     return 0
